@@ -28,6 +28,7 @@ pub struct Window {
     size: u16,
     chunk_size: usize,
     file: File,
+    end_of_file: bool,
 }
 
 impl Window {
@@ -38,12 +39,18 @@ impl Window {
             size,
             chunk_size,
             file,
+            end_of_file: false,
         }
     }
 
     /// Fills the `Window` with chunks of data from the file.
-    /// Returns `true` if the `Window` is full.
+    /// Returns `true` if the `Window` is full. The first chunk shorter than
+    /// the chunk size is the last one: later calls add nothing and return `false`.
     pub fn fill(&mut self) -> Result<bool, Box<dyn Error>> {
+        if self.end_of_file {
+            return Ok(false);
+        }
+
         for _ in self.len()..self.size {
             let mut chunk = vec![0; self.chunk_size];
             let size = self.file.read(&mut chunk)?;
@@ -51,6 +58,7 @@ impl Window {
             if size != self.chunk_size {
                 chunk.truncate(size);
                 self.elements.push_back(chunk);
+                self.end_of_file = true;
                 return Ok(false);
             }
 
